@@ -135,3 +135,6 @@ Definition on_item_change (f : pfront) (item : option N) (q cq : option text) (n
 Definition scroll_down (off : nat) (diff : Z) (len : nat) : nat :=
   let n := if (0 <? diff)%Z then off + Z.to_nat diff else off - Nat.min (Z.to_nat (- diff)) off in
   Nat.max (Nat.min n (Nat.max len 1 - 1)) 1.
+
+(** the position a preview asks for (v_scroll, with v_offset 0), kept inside its content *)
+Definition scroll_init (req len : nat) : nat := Nat.min (Nat.max 1 req) (Nat.max (Nat.max len 1 - 1) 1).
